@@ -63,6 +63,16 @@ ApplyOk(old, new, os, oe, ns, ne, ops) ==
 
 ExactPositions(old, new, os, oe, ns, ne, ops) == Walk(old, new, os, oe, ns, ne, ops).exact
 
+(* C11 as stated, independent of validity: both indices of every op equal   *)
+(* the number of old / new items consumed by all preceding ops plus the     *)
+(* range start (purely numeric - the sequences are not consulted).          *)
+PositionsExact(os, ns, ops) ==
+  FoldLeft(LAMBDA acc, op :
+             [ok |-> acc.ok /\ OI(op) = acc.oc /\ NI(op) = acc.nc,
+              oc |-> acc.oc + (IF Tag(op) \in {0, 1, 3} THEN OL(op) ELSE 0),
+              nc |-> acc.nc + (IF Tag(op) \in {0, 2, 3} THEN NL(op) ELSE 0)],
+           [ok |-> TRUE, oc |-> os, nc |-> ns], ops).ok
+
 (* cost and matched totals                                                  *)
 Cost(ops) == SumSeq([i \in 1..Len(ops) |-> IF IsEqual(ops[i]) THEN 0 ELSE OL(ops[i]) + NL(ops[i])])
 EqualTotal(ops) == SumSeq([i \in 1..Len(ops) |-> IF IsEqual(ops[i]) THEN OL(ops[i]) ELSE 0])
